@@ -136,7 +136,15 @@ def generate(rng, index: int, tier: str) -> dict:
     elif rng.random() < 0.2 and not big:
         ts = G.pick_time(rng, T1, t_end - 1.0, anchors=anchors)
         tl.append({"at": ts, "op": "net.stall", "on": True})
-        tl.append({"at": ts + rng.choice([G.TICK, 0.125, 0.5]), "op": "net.stall", "on": False})
+        # mostly short; sometimes long enough for any "the write is taking too long" logic to fire (the messages still have
+        # most of their 30 s ahead of them, and nothing fails)
+        dur = rng.choice([G.TICK, 0.125, 0.5, 0.5, 7.0, 12.0])
+        tl.append({"at": ts + dur, "op": "net.stall", "on": False})
+        if dur > 1.0:
+            for d in sendq.distinct_messages(rng, gen, n_msgs + 12)[-3:]:
+                if all(x.get("msg") != d for x in tl):
+                    tl.append({"at": ts + G.dyadic(rng, 0.0, 1.0), "op": "user.send", "msg": d, "policy": rng.choice(["idem", "idem", "nonidem"]), "yields": rng.choice([0, 1])})
+            t_end = max(t_end, ts + dur + 3.0)
     tl.sort(key=lambda s: s["at"])
     return {"gen": gen, "mode": "socket", "knobs": knobs, "timeline": tl, "end": t_end + 1.0}
 
